@@ -98,6 +98,14 @@ CLAIMED = {
         "Trusted: einxverif/refsolve.py and expr.propagate (plain Python integer arithmetic). Depth-1 ellipses only; enumeration is skipped (and counted) beyond 2e5 candidates.",
         "DESIGN.md §4 C02, §3 S3",
     ),
+    "C05": (
+        "translation-validation style property-based testing: every recorded/constructed (graph, optimised graph) pair is interpreted on concrete tensors; bounded-exhaustive enumeration of transpose/reshape chains",
+        "Generated-input search plus exhaustive enumeration of the listed chain sub-spaces: both graphs of each pair are evaluated node by node by an independent interpreter on tensors "
+        "with all-distinct entries (distinct and equal dimension lengths); outputs, shapes and in-place effects must agree, the optimiser's pass count is bounded. "
+        "Exhaustive within sub-space (b), exploration elsewhere.",
+        "Trusted: einxverif/graphs.py interpreter; numpy as the meaning of the called functions. Pairs come from run-time interposition on einx._src.tracer.optimize (no source hook).",
+        "DESIGN.md §4 C05, §3 S4",
+    ),
 }
 NOT_YET = "check not built yet in this round (see DESIGN.md §8 build order); the property has an executable oracle and will be claimed once its check is registered"
 
